@@ -132,6 +132,17 @@ def _reparse_raw_base(
 
         root._put_src(new_lines, ln, col, end_ln, end_col, True, True, self if set_ast else None)  # we do this again in our own tree to offset our nodes which aren't being moved over from the modified copy, can exclude self if setting ast because it overrides self locations
 
+        if not scaffold:  # parents keep their nodes but where they start and end can depend on the new node in ways offsetting doesn't know (text put right at the start of the node, a first element which now starts later), the reparsed parents know
+            for parent, copy_parent in zip(self.parents(), copy.parents()):
+                if (end_col_offset := getattr(copy_parenta := copy_parent.a, 'end_col_offset', None)) is not None:
+                    parenta = parent.a
+                    parenta.lineno = copy_parenta.lineno
+                    parenta.col_offset = copy_parenta.col_offset
+                    parenta.end_lineno = copy_parenta.end_lineno
+                    parenta.end_col_offset = end_col_offset
+
+                parent._touch()
+
         copy.pfield.set(copy.parent.a, None)  # remove from copy tree so that copy_root unmake doesn't zero out new node
         copy_root._unmake_fst_tree()
 
